@@ -23,25 +23,25 @@ func (s *State) clone() *State {
 }
 
 type Obligation struct {
-	Name   string
-	Kind   string
-	Fn     string
-	Props  []string
-	Prefix int // number of script lines visible
-	Cond   string
-	Goal   string
-	Pos    string
-	Extra  []string // extra declarations/assertions local to this obligation
-	TimeoutMs int     // per-obligation solver budget override (0: tier default)
-	Expand func() []*Obligation // on failure: finer obligations that localise the failure
-	Batch  string     // obligations with the same batch key share one incremental solver run
-	SubLabels []string // optional names of the sub-goals (reported when one fails)
-	ReplaySrc string  // engine-provided in-package test that replays the obligation on the real code
-	localSlice bool   // (solver driver) build the query with the aggressive local slice
-	noLocal   bool
-	NoStatics bool    // the query carries its own selection of table axioms in Extra
-	Subs   []*SubGoal // when non-empty: the obligation is the conjunction of these goals (one per return site)
-	Expect string   // "unsat" normally; "sat" for vacuity covers
+	Name       string
+	Kind       string
+	Fn         string
+	Props      []string
+	Prefix     int // number of script lines visible
+	Cond       string
+	Goal       string
+	Pos        string
+	Extra      []string             // extra declarations/assertions local to this obligation
+	TimeoutMs  int                  // per-obligation solver budget override (0: tier default)
+	Expand     func() []*Obligation // on failure: finer obligations that localise the failure
+	Batch      string               // obligations with the same batch key share one incremental solver run
+	SubLabels  []string             // optional names of the sub-goals (reported when one fails)
+	ReplaySrc  string               // engine-provided in-package test that replays the obligation on the real code
+	localSlice bool                 // (solver driver) build the query with the aggressive local slice
+	noLocal    bool
+	NoStatics  bool       // the query carries its own selection of table axioms in Extra
+	Subs       []*SubGoal // when non-empty: the obligation is the conjunction of these goals (one per return site)
+	Expect     string     // "unsat" normally; "sat" for vacuity covers
 	// results
 	Status  string
 	Solver  string
@@ -84,55 +84,55 @@ type VC struct {
 	layer        string          // property whose tagged clauses are active in this VC ("" = base contract)
 	noRangeForms bool
 	callsiteHits map[*Clause]int
-	w        *World
-	fn       *ssa.Function
-	contract *Contract
-	prelude  []string
-	script   []string
-	declared map[string]bool
-	nfresh   int
-	obls     []*Obligation
-	pureDone map[*SpecFn]bool
-	heapSort map[string]string
-	strDone  map[int]bool
-	strSrc   map[string]*strSource
-	strCat   map[string][2]Val
-	tableDone map[string]bool
-	ordinals map[string]int
-	frames   int
-	trusted  map[string]bool // assumptions used (extern specs, trusted contracts)
-	outside  []string
-	inlineDepth int
-	safetyProps []string
-	curProps []string
-	snapArrays map[string][]string
-	entry    *State
-	ghostConst map[string]bool
-	nonNil   map[string]bool
-	curContract *Contract
-	ghostSorts map[string]string
-	revealed map[string]bool
-	label    string
-	ifacePtr map[string]*PtrDesc
-	readLog  map[string]bool
-	pureReads []string
+	w            *World
+	fn           *ssa.Function
+	contract     *Contract
+	prelude      []string
+	script       []string
+	declared     map[string]bool
+	nfresh       int
+	obls         []*Obligation
+	pureDone     map[*SpecFn]bool
+	heapSort     map[string]string
+	strDone      map[int]bool
+	strSrc       map[string]*strSource
+	strCat       map[string][2]Val
+	tableDone    map[string]bool
+	ordinals     map[string]int
+	frames       int
+	trusted      map[string]bool // assumptions used (extern specs, trusted contracts)
+	outside      []string
+	inlineDepth  int
+	safetyProps  []string
+	curProps     []string
+	snapArrays   map[string][]string
+	entry        *State
+	ghostConst   map[string]bool
+	nonNil       map[string]bool
+	curContract  *Contract
+	ghostSorts   map[string]string
+	revealed     map[string]bool
+	label        string
+	ifacePtr     map[string]*PtrDesc
+	readLog      map[string]bool
+	pureReads    []string
 	hiddenTables map[string]bool
-	defs      map[string]string // named definitions (symbol -> term)
-	defW      map[string]int    // bit-vector width of named definitions
-	storeDefs map[string]storeInfo
-	noSimplify bool
-	untracked map[string]bool      // heaps modified through paths that do not record keys
-	heapMods  map[string][]heapMod // keys (terms) at which tracked modifications happened
-	effCall  *ssa.CallCommon
-	effFrame *Frame
-	durParts map[string][2]string // time.Duration terms known as (seconds, nanosecond difference)
-	inlineMode bool // no named intermediate definitions, no assumptions (pure term construction)
-	errAxDone bool
-	rtypeOf  map[string]Val
-	statics  []string // initial contents of static table objects (heaps used by this VC)
-	freshKeys map[string]bool
-	dirty    map[string]bool
-	lines    []lineInfo // parallel to script
+	defs         map[string]string // named definitions (symbol -> term)
+	defW         map[string]int    // bit-vector width of named definitions
+	storeDefs    map[string]storeInfo
+	noSimplify   bool
+	untracked    map[string]bool      // heaps modified through paths that do not record keys
+	heapMods     map[string][]heapMod // keys (terms) at which tracked modifications happened
+	effCall      *ssa.CallCommon
+	effFrame     *Frame
+	durParts     map[string][2]string // time.Duration terms known as (seconds, nanosecond difference)
+	inlineMode   bool                 // no named intermediate definitions, no assumptions (pure term construction)
+	errAxDone    bool
+	rtypeOf      map[string]Val
+	statics      []string // initial contents of static table objects (heaps used by this VC)
+	freshKeys    map[string]bool
+	dirty        map[string]bool
+	lines        []lineInfo // parallel to script
 }
 
 // lineInfo classifies a script line for query slicing.
@@ -427,17 +427,17 @@ func (vc *VC) indexDesc(d *PtrDesc, at *types.Array, idx64 string) *PtrDesc {
 // frames
 
 type Frame struct {
-	fn      *ssa.Function
-	id      int
-	vals    map[ssa.Value]Val
-	ptrs    map[ssa.Value]*PtrDesc
-	endSt   map[*ssa.BasicBlock]*State
-	edge    map[[2]int]string // (pred index, succ index) -> edge condition
-	top     bool
-	defers  []*ssa.Defer
-	deferSt []deferRec
-	loops   map[*ssa.BasicBlock]*loopInfo
-	retVals []retSite
+	fn        *ssa.Function
+	id        int
+	vals      map[ssa.Value]Val
+	ptrs      map[ssa.Value]*PtrDesc
+	endSt     map[*ssa.BasicBlock]*State
+	edge      map[[2]int]string // (pred index, succ index) -> edge condition
+	top       bool
+	defers    []*ssa.Defer
+	deferSt   []deferRec
+	loops     map[*ssa.BasicBlock]*loopInfo
+	retVals   []retSite
 	entryVals map[ssa.Value]Val
 }
 
@@ -453,12 +453,12 @@ type retSite struct {
 }
 
 type loopInfo struct {
-	header   *ssa.BasicBlock
-	ordinal  int
-	blocks   map[*ssa.BasicBlock]bool
-	backs    []*ssa.BasicBlock
-	variant0 string
-	havocSt  *State
+	header      *ssa.BasicBlock
+	ordinal     int
+	blocks      map[*ssa.BasicBlock]bool
+	backs       []*ssa.BasicBlock
+	variant0    string
+	havocSt     *State
 	userTargets []locTarget
 }
 
